@@ -16,8 +16,9 @@ KSTATUS, KTE, KCL, KCONN, KPAD = 1, 2, 3, 4, 5
 CL_NONNUM, CL_NEG = 9998, 9999
 
 STATUS = {1: (100, b'Continue'), 2: (200, b'OK'), 3: (204, b'No Content'), 4: (304, b'Not Modified'),
-          5: (500, b'Internal Server Error'), 6: (102, b'Processing'), 7: (103, b'Early Hints')}
-STATUS_IDX = {100: 1, 200: 2, 204: 3, 304: 4}
+          5: (500, b'Internal Server Error'), 6: (102, b'Processing'), 7: (103, b'Early Hints'),
+          8: (205, b'Reset Content'), 9: (404, b'Not Found')}
+STATUS_IDX = {100: 1, 200: 2, 204: 3, 304: 4, 205: 8, 404: 9}
 TE_TEXT = {1: b'chunked', 2: b'Chunked', 3: b'gzip, chunked'}
 CONN_TEXT = {1: b'close', 2: b'keep-alive'}
 PADS = [(b'X-Pad', b'v'), (b'Date', b'Sat, 26 Sep 2026 10:00:00 GMT'), (b'Server', b'fake/1.0'),
@@ -225,7 +226,8 @@ def random_choice(rng, allow_trunc=True, persistent=False):
     """A seeded random point of the message space (the same dimensions as Choices of HttpWire.tla, larger bodies)."""
     ch = {}
     ch['method'] = 'HEAD' if rng.random() < 0.12 else 'GET'
-    ch['status'] = rng.choice([200] * 8 + [204, 304])
+    # 205 and 404 are ordinary statuses as far as framing goes (monitored only: outside the model's status alphabet)
+    ch['status'] = rng.choice([200] * 8 + [204, 304, 205, 404])
     ch['interim'] = 1 if rng.random() < 0.08 else 0
     # which interim status: the abstraction only knows "an interim 1xx"; 102 / 103 executions are monitored only
     ch['icode'] = rng.choice([100, 100, 102, 103])
@@ -272,6 +274,7 @@ def build_cmsg(ch, rng=None):
            'nonnum': CL_NONNUM, 'neg': CL_NEG, 'none': 0}[cl]
     eol = b'\n' if fmt == 'lf' else b'\r\n'
     lines = []
+    nonabs = []
 
     def add_field(kind, val, primary):
         name, value = field_text(kind, val)
@@ -291,6 +294,11 @@ def build_cmsg(ch, rng=None):
             lines.append(('head', line_text(tok(kind, val, 2), name, value), eol, tok(kind, val, 2)))
             lead = r.choice([b' ', b'\t', b'  ']) if r else b' '
             lines.append(('head', lead + value, eol, tok(kind, val, 3)))
+        elif r and kind == KTE and val == 3 and r.random() < 0.5:
+            # the coding list spread over two field lines: "gzip" and "chunked" (equivalent to one comma-separated line)
+            lines.append(('head', name + b': gzip', eol, None))
+            lines.append(('head', _case(r, b'Transfer-Encoding') + b': ' + r.choice([b'chunked', b'Chunked']), eol, None))
+            nonabs.append(1)
         elif fmt == 'dup' and primary:
             lines.append(('head', line_text(tok(kind, val, 0), name, value), eol, tok(kind, val, 0)))
             lines.append(('head', line_text(tok(kind, val, 0), name, value), eol, tok(kind, val, 0)))
@@ -332,6 +340,7 @@ def build_cmsg(ch, rng=None):
           'coded': coded and not bodyless, 'content': content if (coded and not bodyless) else b''}
     cm['ihead'] = b''.join(c + e for (p, c, e, t) in lines if p == 'ihead')
     cm['interim_code'] = ch.get('icode', 100) if ch.get('interim') else 100
+    cm['nonabstract'] = bool(nonabs) or status in (205, 404)
     cm['head'] = b''.join(c + e for (p, c, e, t) in lines if p == 'head')
     if chk:
         pos = 0
